@@ -13,10 +13,18 @@
     - the only other failure of kmpDeduplicate is a slice-bounds panic inside RemoveSequences
       ([ranges_ok] of ProofsKmpSubseq violated).
 
-    OPEN (not proved, no counterexample found, see ProofsKmpEnum): [len reverseMatches >= 1]
-    (the reversed segment does occur at offset [len segment - 1] of the corpus, but [kmpSearch]
-    is not a correct string search: [kmpSearch_unsound_refuted]), and [ranges_ok] for the ranges
-    the loop records. *)
+    REFUTED: totality itself.  The second failure does happen for a ring that satisfies everything
+    cleanupNewRing guarantees (>= 3 vertices, first <> last, no equal neighbours):
+    [kmpDeduplicate_total_refuted] (33 vertices on 3 pixel centres; replayed on the Go code:
+    "slice bounds out of range [20:19]").  In the [len reverseMatches > len matches] case the loop
+    records the range [(start, start + 2(L-1)*len matches)] but resumes at
+    [start + reverseMatches[last] + L - 1], which can lie BEFORE the end of that range because
+    matches after the last reverse match are counted too; the next detection then records a range
+    that starts inside the previous one.
+
+    OPEN: whether the first failure ([len matches = 1 /\ len reverseMatches = 0]) is reachable.
+    The reversed segment does occur at offset [len segment - 1] of the corpus, but [kmpSearch] is
+    not a correct string search ([kmpSearch_unsound_refuted]); no such input was found. *)
 From Coq Require Import ZArith List Bool Lia.
 From Texel Require Import Prelude.Base Index.Model Snap.Model Snap.ProofsKmpSearch Snap.ProofsKmpSubseq.
 Import ListNotations.
@@ -378,3 +386,42 @@ Proof.
 Qed.
 
 Print Assumptions kmpDeduplicate_partial.
+
+(** ** totality is false, also under the preconditions cleanupNewRing establishes *)
+Fixpoint adj_ne (r : list pt) : bool :=
+  match r with
+  | a :: ((b :: _) as t) => negb (pt_eqb a b) && adj_ne t
+  | _ => true
+  end.
+
+Lemma adj_ne_spec : forall r, adj_ne r = true ->
+  forall i p q, nth_error r i = Some p -> nth_error r (S i) = Some q -> p <> q.
+Proof.
+  induction r as [| a r IH]; intros H i p q Hp Hq; [destruct i; discriminate |].
+  destruct r as [| b r]; [destruct i as [| i]; [discriminate | destruct i; discriminate] |].
+  cbn [adj_ne] in H. apply andb_true_iff in H. destruct H as [Hab Hr].
+  destruct i as [| i].
+  - cbn [nth_error] in Hp, Hq. inversion Hp. inversion Hq. subst.
+    apply pt_eqb_neq. destruct (pt_eqb p q); [discriminate | reflexivity].
+  - apply (IH Hr i p q); assumption.
+Qed.
+
+(** B A C (A B C)^5 A B C (B A C)^4 on three non-collinear pixel centres *)
+Definition ring33 : list pt :=
+  let A := (0, 0) in let B := (1, 0) in let C := (1, 1) in
+  [B; A; C; A; B; C; A; B; C; A; B; C; A; B; C; A; B; C; A; B; C; B; A; C; B; A; C; B; A; C; B; A; C].
+
+Theorem kmpDeduplicate_total_refuted : exists r,
+  (3 <= length r)%nat /\
+  (forall a b, hd_error r = Some a -> last_opt r = Some b -> a <> b) /\
+  (forall i p q, nth_error r i = Some p -> nth_error r (S i) = Some q -> p <> q) /\
+  kmpDedupLoop (kmpFuel r) r [] [] 0 = Ok [([(1, 0); (0, 0); (1, 1)], (0, 20)); ([(1, 0); (1, 1)], (19, 21))] /\
+  kmpDeduplicate r = Err SliceBounds.
+Proof.
+  exists ring33. split; [cbn [ring33 length]; lia |]. split.
+  - intros a b Ha Hb. vm_compute in Ha, Hb. inversion Ha. inversion Hb. discriminate.
+  - split; [apply adj_ne_spec; vm_compute; reflexivity |].
+    split; vm_compute; reflexivity.
+Qed.
+
+Print Assumptions kmpDeduplicate_total_refuted.
